@@ -486,3 +486,22 @@ func EnclosingLoops(i ssa.Instruction) []*ssa.BasicBlock {
 	}
 	return out
 }
+
+// OnlyAfterLoop reports whether instruction i can only execute after the loop
+// with header h has run to completion (i.e. i is unreachable from the function
+// entry once the loop's exit edge is removed).
+func OnlyAfterLoop(fn *ssa.Function, h *ssa.BasicBlock, i ssa.Instruction) bool {
+	if h == nil || len(h.Succs) != 2 {
+		return false
+	}
+	blk := NewBlocker()
+	// the exit successor is the one that is not part of the loop body
+	reach := blockReachAvoiding(h.Succs[0], nil)
+	exit := h.Succs[1]
+	if !reach[h] && h.Succs[0] != h {
+		// Succs[0] does not lead back: then Succs[1] is the body
+		exit = h.Succs[0]
+	}
+	blk.AddEdge(h, exit)
+	return !Reach(fn, nil, blk)[i]
+}
